@@ -176,6 +176,12 @@ fn gen_entries(rng: &mut Rng, hostile: bool) -> Vec<Ent> {
             Ent { path: format!("{p}/out/decoy.txt"), kind: Kind::File("evil".into()) },
             Ent { path: format!("{p}/.cargo-ok"), kind: Kind::Symlink("../../../outside/decoy.txt".into()) },
             Ent { path: format!("{p}/./dot.rs"), kind: Kind::File("dot".into()) },
+            // the crate directory itself as an entry: a link out of the cache / to a sibling, a
+            // plain file, a directory
+            Ent { path: p.clone(), kind: Kind::Symlink("../../outside".into()) },
+            Ent { path: p.clone(), kind: Kind::Symlink("sibling-2.0.0".into()) },
+            Ent { path: p.clone(), kind: Kind::File("flat".into()) },
+            Ent { path: format!("{p}/"), kind: Kind::Dir },
         ];
         for _ in 0..rng.range(1, 3) {
             let t = tricks[rng.below(tricks.len())].clone();
@@ -183,6 +189,43 @@ fn gen_entries(rng: &mut Rng, hostile: bool) -> Vec<Ent> {
         }
     }
     v
+}
+
+/// hand-written archives that run first in every tier
+fn corpus() -> Vec<(Vec<Ent>, Option<usize>)> {
+    let p = prefix();
+    let f = |path: String, c: &str| Ent { path, kind: Kind::File(c.into()) };
+    let l = |path: String, t: &str| Ent { path, kind: Kind::Symlink(t.into()) };
+    let benign = vec![f(format!("{p}/Cargo.toml"), "manifest"), f(format!("{p}/src/lib.rs"), "code")];
+    let with = |extra: Vec<Ent>, at_front: bool| {
+        let mut v = benign.clone();
+        if at_front {
+            let mut e = extra;
+            e.extend(v);
+            v = e;
+        } else {
+            v.extend(extra);
+        }
+        v
+    };
+    vec![
+        // known finding: a link to a sibling crate, then a file through it
+        (with(vec![l(format!("{p}/link"), "../sibling-2.0.0"), f(format!("{p}/link/lib.rs"), "evil")], false), None),
+        // former findings (fixed by c2593c5): own marker + interruption; marker as a link out
+        (with(vec![f(format!("{p}/.cargo-ok"), "ok")], true), Some(2)),
+        (with(vec![l(format!("{p}/.cargo-ok"), "../../../outside/decoy.txt")], true), None),
+        // a link out of the cache, then a file through it
+        (with(vec![l(format!("{p}/out"), "../../../outside"), f(format!("{p}/out/decoy.txt"), "evil")], false), None),
+        // the crate directory itself as an entry
+        (vec![l(p.clone(), "../../outside")], None),
+        (with(vec![l(p.clone(), "../../outside")], true), None),
+        (with(vec![l(p.clone(), "../../outside")], false), None),
+        (with(vec![l(p.clone(), "sibling-2.0.0")], true), None),
+        (with(vec![f(p.clone(), "flat")], true), None),
+        (with(vec![Ent { path: format!("{p}/"), kind: Kind::Dir }], true), Some(1)),
+        // `..`, absolute and foreign-prefix names
+        (with(vec![f(format!("{p}/../sibling-2.0.0/lib.rs"), "evil"), f(format!("/{p}/abs.rs"), "abs"), f(format!("{p}x/lib.rs"), "evil")], false), None),
+    ]
 }
 
 /// names interned for the model: 0 = .cargo-ok
@@ -333,12 +376,21 @@ pub fn run(r: &mut Report) {
     let mut rng = Rng::new(r.seed.wrapping_add(shard.wrapping_mul(67867967)) ^ 0xC19);
     std::env::set_var("CARGO_HOME", std::env::var("VERIF_WORK").map(|w| format!("{w}/no-cargo-home")).unwrap_or_else(|_| "/nonexistent-cargo-home".into()));
     let md = gen::GGraph { pkgs: vec![gen::GPkg { name: "rootpkg".into(), version: VetVersion::parse("1.0.0").unwrap(), source: 0, member: true, deps: vec![] }], resolve_order: vec![0], member_order: vec![0] }.metadata();
-    for i in 0..n {
+    // corpus first (shard 0): the witness of known finding C19/escape-into-sibling, the former
+    // findings, and the crate directory itself as an archive entry
+    let corpus: Vec<(Vec<Ent>, Option<usize>)> = if shard == 0 { corpus() } else { vec![] };
+    let ncorpus = corpus.len() as u64;
+    for i in 0..n + ncorpus {
         let mut crng = rng.fork();
         let rng = &mut crng;
-        let hostile = i % 2 == 1;
-        let entries = gen_entries(rng, hostile);
-        let cut: Option<usize> = if rng.chance(2, 3) { Some(rng.below(entries.len())) } else { None };
+        let hostile = i < ncorpus || i % 2 == 1;
+        let (entries, cut) = if i < ncorpus {
+            corpus[i as usize].clone()
+        } else {
+            let entries = gen_entries(rng, hostile);
+            let cut: Option<usize> = if rng.chance(2, 3) { Some(rng.below(entries.len())) } else { None };
+            (entries, cut)
+        };
         r.evaluations += 1;
         let sb = Sandbox::new();
         // make the cache directories exist as the first Cache::acquire would
@@ -353,7 +405,7 @@ pub fn run(r: &mut Report) {
         sb.put_crate(&build_archive(&entries, None));
         let second = sb.fetch(&md);
         let after = sb.snapshot();
-        let case = format!("case#{i} hostile={hostile} cut={cut:?}\nentries: {entries:?}\nfirst: {first:?}\nsecond: {second:?}");
+        let case = format!("{}#{i} hostile={hostile} cut={cut:?}\nentries: {entries:?}\nfirst: {first:?}\nsecond: {second:?}", if i < ncorpus { "corpus" } else { "case" });
         if entries.len() >= 3 && cut.map(|k| k > 0).unwrap_or(false) {
             r.nontrivial(&case);
         }
